@@ -62,7 +62,7 @@ def step (mac : Str → Str → Str) (alnum : Char → Bool) (tokenOf : Nat → 
     (.api r, { s with st := st' })
   | .conn k => (.unit, setConn s k none)
   | .tick d => (.unit, { s with now := s.now + d })
-  | .restart => (.unit, { s with st := { s.st with sessions := [] }, conns := [] })
+  | .restart => (.unit, { s with st := reload s.st, conns := [] })
   | .direct mgr uid c =>
     let (status, st') := dispatch alnum s.st mgr uid c
     (.status status, { s with st := st' })
